@@ -5,6 +5,8 @@ from ..cfg import CFG, assigned_value
 from ..lib import params, returns_of, is_none_const, dominating_literals
 from . import cachefam as F
 
+from . import extra as X
+
 EXPLANATION = ("Who-may-touch and copy-discipline clauses: the variable defaults are only ever deep-copied out of "
                "liquer.state; commands run on a clone of a non-volatile input; State.clone/next_state deep-copy; the "
                "in-memory cache is copy-in/copy-out; every shipped state type's copy() returns a fresh object; variables "
@@ -231,3 +233,5 @@ def run(chk):
     F.rule_memory_copy(chk, chk.repo, "C10.3")
     rule_type_copy(chk, "C10.4")
     rule_vars_thread(chk, "C10.5")
+    X.rule_clone_copies_data(chk, "C10.6")
+    X.rule_clone_decision_from_input(chk, "C10.7")
